@@ -180,6 +180,42 @@ func (p *Prog) contexts() *ctxInfo {
 		}
 		return nil
 	}
+	// closures a variable may hold: follows loads of cells and captured cells
+	var closuresOf func(v ssa.Value, depth int) []*ssa.Function
+	closuresOf = func(v ssa.Value, depth int) []*ssa.Function {
+		if depth > 6 {
+			return nil
+		}
+		if cf := closureArg(v); cf != nil {
+			return []*ssa.Function{cf}
+		}
+		var out []*ssa.Function
+		fromCell := func(cell ssa.Value) {
+			switch a := cell.(type) {
+			case *ssa.Alloc:
+				for _, r := range *a.Referrers() {
+					if st, ok := r.(*ssa.Store); ok && st.Addr == ssa.Value(a) {
+						out = append(out, closuresOf(st.Val, depth+1)...)
+					}
+				}
+			case *ssa.FreeVar:
+				if mc := p.parent[a.Parent()]; mc != nil {
+					for i, fv := range a.Parent().FreeVars {
+						if fv == a {
+							out = append(out, closuresOf(mc.Bindings[i], depth+1)...)
+						}
+					}
+				}
+			}
+		}
+		switch x := v.(type) {
+		case *ssa.UnOp:
+			fromCell(x.X)
+		case *ssa.Alloc, *ssa.FreeVar:
+			fromCell(x)
+		}
+		return out
+	}
 	for changed := true; changed; {
 		changed = false
 		for _, f := range p.Repo {
@@ -278,18 +314,10 @@ func (p *Prog) contexts() *ctxInfo {
 						changed = true
 					}
 				} else {
-					// call of a local closure variable created in this function (helper closures, rs)
-					if u, ok := com.Value.(*ssa.UnOp); ok {
-						if al, ok := u.X.(*ssa.Alloc); ok {
-							for _, r := range *al.Referrers() {
-								if st, ok := r.(*ssa.Store); ok {
-									if cf := closureArg(st.Val); cf != nil {
-										if add(cf, cur, "local closure called in "+fnName(f)) {
-											changed = true
-										}
-									}
-								}
-							}
+					// call of a local closure variable (helper closures, possibly captured by an inner closure)
+					for _, cf := range closuresOf(com.Value, 0) {
+						if p.isRepoFn(cf) && add(cf, cur, "local closure called in "+fnName(f)) {
+							changed = true
 						}
 					}
 				}
